@@ -221,12 +221,15 @@ PeerSelect(d) ==
   /\ UNCHANGED <<cfg, denied, ansAuth, pAuth, pEnc, keyMat, cipherOK, offered, ran, keyE,
                  postAuth, postDenied, policyAuth, encClaim, outcome>>
 
-\* E runs the selected method only if it offered it; the exchange completes
-\* only if the peer can run it.  Everything else ends in Abort.
+\* The exchange completes only if the peer can run the selected method.  When
+\* authentication is REQUIRED, E must refuse a method it did not offer (the
+\* statement demands that a method E ITSELF LISTED ran); otherwise the
+\* statement only demands that E reports what really ran, so running it is
+\* tolerated here.  Everything else ends in Abort.
 ClientRun ==
   /\ phase = "c_run"
   /\ sel \in Runnable
-  /\ sel \in offered \/ "RunsUnoffered" \in Bug
+  /\ sel \in offered \/ cfg.auth # "REQUIRED" \/ "RunsUnoffered" \in Bug
   /\ ran' = sel
   /\ phase' = "key"
   /\ UNCHANGED <<cfg, devs, denied, ansAuth, pAuth, pEnc, keyMat, cipherOK, offered, sel, keyE,
